@@ -76,9 +76,12 @@ def main():
     if keep and confirmed:
         dst = os.path.join("/verif/seeded", keep)
         os.makedirs(dst, exist_ok=True)
-        shutil.copy(patch, os.path.join(dst, "patch.diff"))
-        shutil.copy(demo, os.path.join(dst, "demo_test.go"))
+        if os.path.abspath(d) != os.path.abspath(dst):
+            shutil.copy(patch, os.path.join(dst, "patch.diff"))
+            shutil.copy(demo, os.path.join(dst, "demo_test.go"))
         notes = open(os.path.join(d, "notes.md")).read() if os.path.exists(os.path.join(d, "notes.md")) else ""
+        if not notes and os.path.exists(os.path.join(dst, "meta.json")):
+            notes = json.load(open(os.path.join(dst, "meta.json"))).get("needs_to_manifest", "")
         meta = {"breaks_property": props[0], "also_checked": props[1:], "needs_to_manifest": notes,
                 "confirmed": {k: out[k] for k in ("builds", "suite_passes_with_patch", "demo_fails_with_patch", "demo_passes_without_patch")},
                 "what_was_run": ["git apply patch.diff in a scratch worktree; go build ./... ; go build -tags verif ./... ; go test -vet=off -count=1 ./... (passes)",
